@@ -99,6 +99,13 @@ Definition WorldCoherent (w : world) : Prop :=
   NoDup (all_ext_keys w) /\
   Forall (fun d => NoDup (map (fun v => (vd_key v, vd_code v)) (kd_values d))) (all_ext_defs w).
 
+(* keys of a list of keyed definitions (identity types, payment means, inboxes): those given are pairwise distinct *)
+Definition given_keys (l : list keydef) : list str :=
+  filter (fun k => match k with [] => false | _ => true end) (map kd_key l).
+
+Definition regime_key_lists (r : regime) : list (list keydef) := [rg_identities r; rg_payment_means r; rg_inboxes r].
+Definition addon_key_lists (a : addon) : list (list keydef) := [ad_identities a; ad_inboxes a].
+
 Definition RegimeCoherent (w : world) (r : regime) : Prop :=
   (* names an existing currency *)
   In (rg_currency r) (map cu_code (w_currencies w)) /\
@@ -118,7 +125,9 @@ Definition RegimeCoherent (w : world) (r : regime) : Prop :=
   (* stamps to copy are named *)
   Forall (fun s => s <> []) (correction_stamp_refs (rg_corrections r)) /\
   (* exempt rates carry no values *)
-  Forall (fun rt => rt_exempt rt = true -> rt_values rt = []) (regime_rates r).
+  Forall (fun rt => rt_exempt rt = true -> rt_values rt = []) (regime_rates r) /\
+  (* identity, payment-means and inbox definitions are found by their own key *)
+  Forall (fun l => NoDup (given_keys l)) (regime_key_lists r).
 
 (* every tag a regime's scenario filters on is a tag the regime offers for that schema *)
 Definition RegimeScenarioTagsDefined (r : regime) : Prop :=
@@ -132,7 +141,8 @@ Definition AddonCoherent (w : world) (a : addon) : Prop :=
   Forall (fun st => In (snd st) (tags_for (fst st) (ad_tags a) ++ regime_tags_for w (fst st)))
          (scenario_tag_refs (ad_scenarios a)) /\
   Forall (fun t => In t invoice_types) (scenario_type_refs (ad_scenarios a) ++ correction_type_refs (ad_corrections a)) /\
-  Forall (fun s => s <> []) (correction_stamp_refs (ad_corrections a)).
+  Forall (fun s => s <> []) (correction_stamp_refs (ad_corrections a)) /\
+  Forall (fun l => NoDup (given_keys l)) (addon_key_lists a).
 
 (* ---- boolean checkers of the same shape ---- *)
 
@@ -172,7 +182,8 @@ Definition regime_clauses (w : world) (r : regime) : list bool :=
     all_in (regime_value_tag_refs r) (all_tag_keys (rg_tags r));
     all_in (scenario_type_refs (rg_scenarios r) ++ correction_type_refs (rg_corrections r)) invoice_types;
     forallb (fun s => match s with [] => false | _ => true end) (correction_stamp_refs (rg_corrections r));
-    forallb (fun rt => negb (rt_exempt rt) || match rt_values rt with [] => true | _ => false end) (regime_rates r) ].
+    forallb (fun rt => negb (rt_exempt rt) || match rt_values rt with [] => true | _ => false end) (regime_rates r);
+    forallb (fun l => nodup_strs (given_keys l)) (regime_key_lists r) ].
 Definition regime_coherentb (w : world) (r : regime) : bool := forallb (fun b => b) (regime_clauses w r).
 
 Definition regime_scenario_tagsb (r : regime) : bool :=
@@ -184,7 +195,8 @@ Definition addon_clauses (w : world) (a : addon) : list bool :=
     forallb (ext_pair_allowedb w) (addon_ext_pairs a);
     forallb (fun st => memb (snd st) (tags_for (fst st) (ad_tags a) ++ regime_tags_for w (fst st))) (scenario_tag_refs (ad_scenarios a));
     all_in (scenario_type_refs (ad_scenarios a) ++ correction_type_refs (ad_corrections a)) invoice_types;
-    forallb (fun s => match s with [] => false | _ => true end) (correction_stamp_refs (ad_corrections a)) ].
+    forallb (fun s => match s with [] => false | _ => true end) (correction_stamp_refs (ad_corrections a));
+    forallb (fun l => nodup_strs (given_keys l)) (addon_key_lists a) ].
 Definition addon_coherentb (w : world) (a : addon) : bool := forallb (fun b => b) (addon_clauses w a).
 
 (* ---- recorded exceptions (genuine defects of the pinned tree, see findings/C19.json) ----
